@@ -70,6 +70,19 @@ int main ()
         // the coordinator may have drawn ahead by at most nothing: every draw it makes is requested
         double du = std::fabs ((double) g_ucalls - (double) twin_used);
         o << hx (worst) << hx (du); }
+      // cov.shared rho b0 b1 pattern uniforms...: the same scenario, compared with the model (Box-Muller stream model composed with
+      // the coordinator model on a shared position counter): delivered factors in request order, then the uniforms consumed
+      else if (op == "cov.shared") {
+        double rho = rd (t[1]), b0 = rd (t[2]), b1 = rd (t[3]); std::string pat = t[4];
+        for (size_t i=5;i<t.size();i++) g_uniform.push_back (rd (t[i]));
+        BoxMuller shared (0);
+        epsic::bivariate_lognormal_modes* co = new epsic::bivariate_lognormal_modes (rho); co->set_normal (&shared);
+        co->set_beta (0, b0); co->set_beta (1, b1);
+        epsic::mode* ma = new epsic::mode; epsic::mode* mb = new epsic::mode;
+        epsic::modulated_mode* A_ = co->get_modulated_mode (0, ma); epsic::modulated_mode* B_ = co->get_modulated_mode (1, mb);
+        for (char c : pat) { if (c == 'x') { shared.evaluate(); continue; } o << hx (c == 'A' ? A_->modulation() : B_->modulation()); }
+        if (g_exhausted) throw std::runtime_error (g_exhausted);
+        o << " " << g_ucalls; }
       else { std::cout << "err unknown-op\n"; continue; }
       std::cout << "ok" << o.str() << "\n";
     }
